@@ -271,6 +271,22 @@ def xi_linear(ctx, rule="C18.R9"):
     return n
 
 
+def _initial_guess_only(st):
+    """names that enter a statement only as the INITIAL GUESS of a nonlinear solve (`self._solve_nonlinear_system(x0, y, lu)`, `fsolve(f, x0,
+    ...)`): the converged result does not depend on them, so they are no data ancestors of the result"""
+    if not isinstance(st, ast.Assign) or not isinstance(st.value, ast.Call):
+        return set()
+    call = st.value
+    nm = (dotted(call.func) or "").split(".")[-1]
+    pos = {"_solve_nonlinear_system": 0, "fsolve": 1}.get(nm)
+    if pos is None or len(call.args) <= pos:
+        return set()
+    guess = {w.id for w in ast.walk(call.args[pos]) if isinstance(w, ast.Name)}
+    other = {w.id for i_, a in enumerate(call.args) if i_ != pos for w in ast.walk(a) if isinstance(w, ast.Name)}
+    other |= {w.id for k in call.keywords for w in ast.walk(k.value) if isinstance(w, ast.Name)}
+    return guess - other
+
+
 def fresh_reference_iterate(ctx, rule="C18.R8"):
     """The percussion fixed point of a step is converged when an iterate agrees with its IMAGE under one application of the step's map
     (project, re-solve).  A warm start from the previous step is fine as long as what is compared is z and G(z) (BackwardEuler compares the
@@ -301,8 +317,12 @@ def fresh_reference_iterate(ctx, rule="C18.R8"):
                      and isinstance(nd.ast.value.op, ast.Sub) and any(isinstance(t, ast.Name) and t.id.startswith("diff") for t in nd.ast.targets)]
             for d in diffs:
                 n += 1
-                namesA = {w.id for w in ast.walk(d.ast.value.left) if isinstance(w, ast.Name)}
-                namesB = {w.id for w in ast.walk(d.ast.value.right) if isinstance(w, ast.Name)}
+                def _value_names(e):
+                    """names of the compared arrays; names that only select entries (`x[:n_state]`) are no operands"""
+                    skip = {id(x) for w in ast.walk(e) if isinstance(w, ast.Subscript) for x in ast.walk(w.slice)}
+                    return {w.id for w in ast.walk(e) if isinstance(w, ast.Name) and id(w) not in skip}
+                namesA = _value_names(d.ast.value.left)
+                namesB = _value_names(d.ast.value.right)
                 def first_pass_slice(names):
                     """backward slice as seen in the FIRST pass through the loop: where a definition from before the loop reaches a use, only that one is followed"""
                     seen, work = set(), [(d, set(names))]
@@ -315,7 +335,7 @@ def fresh_reference_iterate(ctx, rule="C18.R8"):
                             for df in (outside if (outside and inside_node) else defs):
                                 if df.id not in seen:
                                     seen.add(df.id)
-                                    work.append((df, set(rd.uses(df))))
+                                    work.append((df, set(rd.uses(df)) - _initial_guess_only(df.ast)))
                     return {cfg.nodes[i_] for i_ in seen}
                 SA = first_pass_slice(namesA)
                 SB = first_pass_slice(namesB)
@@ -601,4 +621,10 @@ MUTANTS += [
 ]
 NEUTRAL += [
     dict(id="c18-n-r10", canary=True, what="Moreau: the closed-contact set is named before it is stored", file='cardillo/solver/moreau.py', old='        g_Nn12 = self.system.g_N(tn12, qn12)\n        self.I_N = np.where(\n            np.logical_or(\n                g_Nn12 <= 0,\n                np.isclose(g_Nn12, np.zeros(self.system.nla_N), atol=IS_CLOSE_ATOL),\n            )\n        )[0]\n', new='        g_Nn12 = self.system.g_N(tn12, qn12)\n        closed = np.where(\n            np.logical_or(\n                g_Nn12 <= 0,\n                np.isclose(g_Nn12, np.zeros(self.system.nla_N), atol=IS_CLOSE_ATOL),\n            )\n        )[0]\n        self.I_N = closed\n'),
+]
+
+MUTANTS += [
+    dict(id="c18-r8-be", canary=True, what="[seeded by sub-agent] BackwardEuler tests convergence of its contact fixed point on the smooth state xn1 - x0, where x0 is the warm start from the previous step on the first pass", file='cardillo/solver/backward_euler.py',
+         old="                    diff = yn1 - y0\n                    sc = (\n                        self.options.fixed_point_atol\n                        + np.maximum(np.abs(yn1), np.abs(y0))\n",
+         new="                    diff = xn1 - x0\n                    sc = (\n                        self.options.fixed_point_atol\n                        + np.maximum(np.abs(xn1), np.abs(x0))\n", expect="C18.R8"),
 ]
